@@ -216,6 +216,20 @@ func (x *mach) opAddV(r int, v int, c4 int, host int) {
 	})
 }
 
+// opUniq: the event-level entry MultiValue.ApplyUnique(rng, hashes, count, host)
+func (x *mach) opUniq(r int, hashes []int64, c4 int, host int) {
+	d, clone := x.predictDraw(x.m[r].Value.Count(), float64(c4)/4)
+	x.h.Op("m uniq %d %d %d %d %s", r, d, c4, host, verifx.List(hashes))
+	x.guard(func() {
+		before := *x.rng
+		x.m[r].ApplyUnique(x.rng, hashes, float64(c4)/4, tag(host))
+		x.drewObs(before, clone)
+		x.h.Obs("%s", showV(&x.m[r].Value))
+		x.h.Obs("%s", showU(&x.m[r].HLL))
+		x.h.Obs("%s", x.showB(&x.m[r].HLL))
+	})
+}
+
 func (x *mach) opIns(r int, val uint64) {
 	x.h.Op("m ins %d %d", r, val)
 	x.guard(func() {
@@ -512,6 +526,23 @@ func (x *mach) genLeaf(r *verifx.Rng, reg int, sharedHashes []uint64) {
 		}
 		x.opRaw(reg, l)
 		h.Stat("leaf.raw", 1)
+	}
+	// event-level entry: ApplyUnique (hashes are also values); count = len(hashes), or an integer count with 1, 2 or 4 hashes
+	if r.Chance(1, 3) {
+		n := r.Range(1, 5)
+		hs := make([]int64, n)
+		for i := range hs {
+			hs[i] = int64(r.Range(-30, 30))
+			if r.Chance(1, 4) {
+				hs[i] = int64(r.Range(-1000, 1000))
+			}
+		}
+		c4 := 4 * n
+		if (n == 1 || n == 2 || n == 4) && r.Chance(1, 2) {
+			c4 = 4 * r.Range(1, 20)
+		}
+		x.opUniq(reg, hs, c4, pickHost(r))
+		h.Stat("leaf.apply_unique", 1)
 	}
 	// unique part: small sketches that share values (and sometimes the hash 0)
 	if r.Chance(2, 3) {
